@@ -432,10 +432,13 @@ def shard_strings(arg, p):
 
 
 def string_shards(ci, which, k, frame=None):
+    """One shard per prefix of length plen (each enumerates every extension up
+    to length k) plus one shard for the tuples shorter than plen; plen is
+    chosen so that a shard holds about a thousand cases or more."""
     n = len(alphabet(ci, which))
-    if k <= 0:
-        return [(ci, which, 0, None, 1, frame)]
-    plen = 2 if k >= 3 else 1
+    plen = min(2, max(0, k - 2))
+    if plen == 0:
+        return [(ci, which, max(k, 0), (), 0, frame)]
     out = [(ci, which, k, None, plen, frame)]
     if plen == 1:
         out += [(ci, which, k, (i,), plen, frame) for i in range(n)]
@@ -863,6 +866,9 @@ def run(ctx: core.Ctx):
             tuples += string_count(len(alphabet(ci, 2)), kf)
     bounds["fragment_tuples"] = tuples
     ctx.pmap(shard_strings, shards)
+    done = sum(v for k, v in ctx.counters.items() if k.startswith("cases_strings_"))
+    if done < tuples and not ctx.counters.get("shards_cut_short"):
+        raise core.HarnessError(f"fragment strings: {done} cases for {tuples} tuples")
 
     # (c) mutations
     n = len(CORPUS)
